@@ -157,6 +157,17 @@ def cases(ctx):
                 out.append({"kind": "ascii", "rom": rom, "src": src,
                             "spec": {"t": "data", "high": rom == "high", "org": org, "off": _phys(rom, org),
                                      "items": [("ascii", text)], "end": "zz_end"}})
+            # .ascii with a table active in its scope (and .text beside it): .ascii never goes through the table
+            tbl = {"tbl": [("A", [0x01]), ("l", [0x02, 0x03]), ("Hel", [0x7F]), (" ", [0xFE]), ("\u00e9", [0x99])]}
+            for text in ("A", "Hello, World", "All\u00e9 l", ""):
+                for where in ("root", "block", "scope"):
+                    org = _org(rng, rom)
+                    o, c = {"root": ("", ""), "block": ("{\n", "}\n"), "scope": (".scope zz_sc {\n", "}\n")}[where]
+                    src = (f"*={org:#08x}\n.table 't.tbl'\n{o}zz_start:\n.ascii '{text}'\n.text 'Al'\nzz_end:\n{c}")
+                    out.append({"kind": f"ascii-with-table:{where}", "rom": rom, "src": src, "files": {"t.tbl": tbl},
+                                "spec": {"t": "data", "high": rom == "high", "org": org, "off": _phys(rom, org),
+                                         "items": [("ascii", text), ("data", "db", [0x01, 0x02, 0x03])],
+                                         "end": "zz_end"}})
             # .incbin incl. bank-end crossings
             window_end = 0x10000
             for length, back in ((0, 0x100), (1, 0x100), (7, 7), (16, 15), (0x40, 1), (300, 0x20), (0x8000, 0x10), (70000, 0x8000 if rom != "high" else 0x9000)):
